@@ -60,7 +60,7 @@ def main():
 
     # ---- sorts
     p = os.path.join(c.out, "sorts.ndjson")
-    rc, out, err = c.run([asan, "sorts", str(c.seed), "3000" if c.thorough else "300", p], timeout=1200)
+    rc, out, err = c.run([asan, "sorts", str(c.seed), "40000" if c.thorough else "300", p], timeout=1200)
     for ln in out.splitlines():
         if ln.startswith("MISMATCH"):
             c.violation("order " + ln, {"kind": "harness", "line": ln})
